@@ -197,3 +197,18 @@ def crash_payload(shape, salt, v):
     else:
         raise ValueError(shape)
     return body
+
+
+def type_variant(o, top=True):
+    """One step of Python-equal, type-different replacement on every 0/1-valued leaf:
+    int 0/1 -> bool, bool -> float (0.0 / 1.0).  `variant == original` holds in Python, `same()` does not.
+    The bookkeeping keys _v/_m of a payload keep their type."""
+    if isinstance(o, dict):
+        return {k: (v if (top and k in ("_v", "_m")) else type_variant(v, False)) for k, v in o.items()}
+    if isinstance(o, list):
+        return [type_variant(v, False) for v in o]
+    if type(o) is int and o in (0, 1):
+        return bool(o)
+    if type(o) is bool:
+        return float(o)
+    return o
